@@ -171,7 +171,11 @@ class Evaluator(Folder):
             raise Raised(name, st)
         elif isinstance(st, (ast.Assert, ast.Pass, ast.Import, ast.ImportFrom, ast.FunctionDef)):
             if isinstance(st, ast.FunctionDef):
-                raise Unfoldable("local function " + st.name)
+                from .fold import _LocalFn
+
+                if any(isinstance(n, (ast.Yield, ast.YieldFrom)) for n in ast.walk(st)):
+                    raise Unfoldable("local generator " + st.name)
+                self.env[st.name] = _LocalFn(st, self.env)
         elif isinstance(st, ast.Delete):
             for t in st.targets:
                 if isinstance(t, ast.Name):
@@ -409,3 +413,80 @@ def set_public(o: AObj, **public: Any) -> AObj:
         if d is not None and d.startswith("self.") and d.count(".") == 1:
             o.__dict__[d.split(".")[1]] = v
     return o
+
+
+def call_fn(ctx: Any, fn: Any, args: Sequence[Any], kwargs: Optional[Dict[str, Any]] = None, hook: Any = None, keep: Sequence[str] = ()) -> Any:
+    """abstractly evaluate one repository function (private helpers expanded, `keep` names left to the hook) on the arguments"""
+    node = ctx.inl(fn, keep=tuple(keep))
+    a = node.args
+    params = [x.arg for x in a.posonlyargs + a.args]
+    env: Dict[str, Any] = dict(zip(params, args))
+    env.update(kwargs or {})
+    defaults = dict(zip(reversed(params), reversed(a.defaults)))
+    kwdefaults = dict(zip([x.arg for x in a.kwonlyargs], a.kw_defaults))
+    for p_ in params + [x.arg for x in a.kwonlyargs]:
+        if p_ not in env:
+            d = defaults.get(p_, kwdefaults.get(p_))
+            if d is None:
+                raise Unfoldable("argument %s of %s not given" % (p_, fn.name))
+            env[p_] = Folder({}, ctx.repo, fn.module, fn.cls).fold(d)
+    ev = Evaluator(env, ctx.repo, fn.module, fn.cls, hook)
+    is_gen = any(isinstance(n, (ast.Yield, ast.YieldFrom)) for n in ast.walk(node))
+    r = ev.run(body_without_docstring_(node))
+    return list(ev.yielded) if is_gen else r
+
+
+class Recorder(Abstract):
+    """a callable stand-in: remembers how it was called and answers with a fixed value"""
+
+    def __init__(self, name: str, result: Any = None, log: Optional[List[Any]] = None):
+        self.name = name
+        self.result = result
+        self.log = log if log is not None else []
+
+    def __call__(self, *args: Any, **kwargs: Any) -> Any:
+        self.log.append((self.name, args, kwargs))
+        return self.result(*args, **kwargs) if callable(self.result) and not isinstance(self.result, Abstract) else self.result
+
+
+def module_call_hook(ctx: Any, module: Any, evaluate: Sequence[str], log: List[Any], results: Optional[Dict[str, Any]] = None, base_hook: Any = None, record: Optional[Sequence[str]] = None) -> Any:
+    """calls to module-level functions of the repository, by name: with `record` given, exactly those are logged (name, args,
+    kwargs) and answer with results[name] (default: a token) while every other one is entered; without it, those in `evaluate`
+    are entered and the others logged"""
+    results = results or {}
+
+    def hook(e: ast.expr, f: Folder) -> Any:
+        if base_hook is not None:
+            r = base_hook(e, f)
+            if r is not NotImplemented:
+                return r
+        target = None
+        if isinstance(e, ast.Call) and isinstance(e.func, ast.Name) and e.func.id not in f.env:
+            if e.func.id in module.functions:
+                target = module.functions[e.func.id]
+            else:
+                try:
+                    r = ctx.repo.resolve_expr(f.mod or module, e.func, None)
+                except Exception:
+                    r = None
+                if type(r).__name__ == "FuncInfo" and r.cls is None:
+                    target = r
+        elif isinstance(e, ast.Call) and isinstance(e.func, ast.Attribute) and dotted(e.func) and dotted(e.func).split(".")[0] not in f.env:
+            try:
+                r = ctx.repo.resolve_expr(f.mod or module, e.func, None)
+            except Exception:
+                r = None
+            if type(r).__name__ == "FuncInfo" and r.cls is None:
+                target = r
+        if target is not None:
+            name = target.name
+            args = [f.fold(a) for a in e.args]
+            kwargs = {k.arg: f.fold(k.value) for k in e.keywords if k.arg}
+            if (record is not None and name not in record) or (record is None and name in evaluate):
+                return call_fn(ctx, target, args, kwargs, hook, keep=tuple(target.module.functions))
+            log.append((name, args, kwargs))
+            res = results.get(name, ("RESULT-OF", name))
+            return res(*args, **kwargs) if callable(res) and not isinstance(res, Abstract) else res
+        return NotImplemented
+
+    return hook
